@@ -111,6 +111,7 @@ class Leg:
     must_hit: List[str] = field(default_factory=list)
     rule: str = ""
     exhaustive: bool = False
+    machine: Optional[Callable] = None  # machine(tier, holder) -> RuleBasedStateMachine subclass (stateful legs)
     # exceptions a check body may leak that are harness bugs rather than findings are NOT special-cased:
     # every exception escaping check() is a failure with clause "exception:<Type>@<frame>".
 
@@ -268,6 +269,9 @@ def run_leg_shard(prop: Prop, leg: Leg, tier: str, seed: int, shard: int, nshard
         if leg.strategy is not None:
             n = n_override or (leg.n_quick if tier == "quick" else leg.n_thorough)
             _run_hypothesis(prop, leg, tier, seed * 1000 + shard, n, stats, known)
+        if leg.machine is not None:
+            n = n_override or (leg.n_quick if tier == "quick" else leg.n_thorough)
+            _run_machine(prop, leg, tier, seed * 1000 + shard, n, stats, known)
     except Exception as e:
         stats.errors.append("harness error in leg %s shard %d: %s\n%s" % (leg.name, shard, repr(e), traceback.format_exc()[-1500:]))
     stats.wall = time.time() - t0
@@ -323,6 +327,59 @@ def _run_hypothesis(prop, leg, tier, seed, n, stats, known):
             spec, new = holder.get("last", (None, [("flaky", repr(e)[:300])]))
             stats.failures.append({"leg": leg.name, "spec": spec, "clauses": [("flaky:" + new[0][0], new[0][1])], "origin": "flaky"})
             return
+
+
+def _run_machine(prop, leg, tier, seed, n, stats, known):
+    """drive a Hypothesis rule-based state machine; the machine records its history as a JSON spec that the
+    leg's ordinary check(spec) replays"""
+    import hypothesis
+    from hypothesis import HealthCheck, Phase, settings
+    from hypothesis.stateful import run_state_machine_as_test
+
+    suppressed = set()
+    for rnd in range(3):
+        holder = {}
+
+        def flt(spec, failures, _s=suppressed):
+            new = []
+            for clause, detail in failures:
+                kid = known.match(leg.name, spec, clause, detail)
+                if kid:
+                    stats.known_hits[kid] += 1
+                elif clause not in _s:
+                    new.append((clause, detail))
+            return new
+
+        holder["filter"] = flt
+        M = hypothesis.seed(seed + 7919 * rnd)(leg.machine(tier, holder))
+        cfg = settings(max_examples=n if rnd == 0 else max(10, n // 2), stateful_step_count=25 if tier == "quick" else 50, database=None, deadline=None,
+                       derandomize=False, report_multiple_bugs=False, print_blob=False, suppress_health_check=list(HealthCheck),
+                       phases=[Phase.generate, Phase.shrink])
+        failed = None
+        try:
+            run_state_machine_as_test(M, settings=cfg)
+        except Violation:
+            failed = holder["last"]
+        except Exception as e:
+            if "last" in holder:
+                failed = holder["last"]
+            else:
+                raise
+        for spec, labels in holder.get("histories", []):
+            stats.evaluations += 1
+            for lab in labels:
+                stats.labels[lab] += 1
+                stats.gen_labels[lab] += 1
+            if len(spec.get("history", [])) >= 3:
+                stats.nontrivial.add(digest(spec))
+                if len(stats.samples) < 4:
+                    stats.samples.append({"leg": leg.name, "spec": spec_c_trim(spec), "labels": sorted(labels)})
+        stats.labels["machine_steps"] += holder.get("steps", 0)
+        if failed is None:
+            return
+        spec, new = failed
+        stats.failures.append({"leg": leg.name, "spec": spec, "clauses": new, "origin": "state machine (shrunk history)"})
+        suppressed.update(c for c, _ in new)
 
 
 # ---------------------------------------------------------------------------------------------
@@ -476,7 +533,7 @@ def run_property(pid: str, tier: str, seed: int, only_legs=None, n_override=None
         return 2
     if viol_paths:
         for (legname, clause), v in sorted(seen.items()):
-            print("  violation leg=%s clause=%s detail=%s" % (legname, clause, v["clauses"][0][1]))
+            print("  violation leg=%s clause=%s detail=%s" % (legname, clause, str(v["clauses"][0][1])[:500]))
         for p in viol_paths:
             print("VIOLATION property=%s replay=%s" % (pid, p))
         return 1
